@@ -50,6 +50,7 @@ def run(prop: str, thorough: bool) -> int:
         print(f'ANALYSIS-ERROR property={prop} reason=no rules registered')
         return 2
     fn, what = REGISTRY[prop]
+    ctx = None
     try:
         program = load()
         ctx = Ctx(prop, program, thorough)
@@ -59,6 +60,12 @@ def run(prop: str, thorough: bool) -> int:
             th.extend(ctx)
         return finalize(ctx, tier, seed, t0, what, EXPLANATION.format(what=what))
     except AnalysisError as e:
+        from .core import VIOLATION
+        if ctx is not None and any(ob.verdict == VIOLATION for ob in ctx.obs):
+            # the analysis could not be completed, but what it established before giving up includes a definite
+            # violation: that is reported (the rest shows as analysis errors)
+            ctx.undecided(next(ob.rule for ob in ctx.obs if ob.verdict == VIOLATION), 'rest of the analysis', '-', f'analysis stopped: {e}')
+            return finalize(ctx, tier, seed, t0, what, EXPLANATION.format(what=what))
         print(f'ANALYSIS-ERROR property={prop} reason={e}')
         _write_error_evidence(prop, tier, seed, t0, str(e))
         return 2
